@@ -3755,6 +3755,17 @@ func (r *Resolver) processAuthoritySection(ctx context.Context, rs *resolveState
 	// Extract nameserver information
 	nsInfo := r.extractDelegationInfo(resp)
 	if len(nsInfo.hosts) == 0 {
+		if minimized {
+			// The reply to a MINIMISED question whose authority section holds
+			// neither SOA, CNAME nor NS (NSEC records alone for an empty
+			// non-terminal, or junk) says nothing about the client's
+			// question: returning it handed the client an empty answer under
+			// the ancestor's name and filed it in the cache under that
+			// name. Ask for the next longer name, as the SOA / CNAME arm does.
+			rs.level++
+			rs.isRoot = false
+			return r.resolve(ctx, rs)
+		}
 		result, err := r.authority(ctx, minReq, resp, rs.parentDS, rs.servers.Zone)
 		if err == nil {
 			r.clearResolutionZoneFailure(rs.req.Question[0], rs.servers.Zone)
